@@ -144,8 +144,8 @@ def build(prog, dump, rank_mode="positions", rank_override=None):
                 var_sx.append("(var 0 %d %d (dom%s))" % (I(s[2]), ve["seq"], "".join(" %d" % d for d in dom)))
     # object variables created for an uninstantiated field of an object / an unassigned parameter of an atom: the variable is bound
     # in that environment only (a variable handed in from elsewhere is also bound where it was declared)
-    # (the owner is the object / atom created last before the variable, among those that bind it; a variable that is also bound by a
-    # declaration in a plain environment - global scope, rule body, constructor - was declared there and only handed in)
+    # (the owner is the object / atom created last BEFORE the variable, among those that bind it: a variable that was declared elsewhere and
+    # only handed in exists before the atom / object it is handed to)
     binders = {}
     for e in dump["envs"]:
         for n, v in e["vars"].items():
@@ -153,9 +153,7 @@ def build(prog, dump, rank_mode="positions", rank_override=None):
                 binders.setdefault(v["id"], []).append((e, n))
     for vid, bs in sorted(binders.items()):
         ve = envs[vid]
-        if any(e["kind"] not in ("obj", "atom") for e, n in bs):
-            continue
-        cands = [(e["seq"], e, n) for e, n in bs if e["seq"] < ve["seq"] and n != "tau"]
+        cands = [(e["seq"], e, n) for e, n in bs if e["kind"] in ("obj", "atom") and e["seq"] < ve["seq"] and n != "tau"]
         if not cands:
             continue
         _, e, n = max(cands, key=lambda t: t[0])
